@@ -8,7 +8,7 @@ RULE = ('text: correspondence c15_text (pixel map + bounding_box of Text on synt
         'multi-line strings (LF / CR LF / empty lines) x positions: every pixel on both recording targets lies in bounding_box(), transparent styles reach the target '
         'with no call; p_c02_text_synth = the same on custom font records with spacing 0..3 and decoration rectangles anywhere inside the glyph height / below it.')
 ASSUMPTIONS = ['text: every line inside |coordinates| <= 2^28 (draw_ok); custom fonts: strikethrough inside the glyph height (font_wf) and, for fonts with spacing > 0, '
-               'a text or background colour set (otherwise draw_string advances by n*(cw+sp) and the decorations overshoot the measured box by the spacing: see FINDINGS-C02.md)']
+               'a text or background colour set (otherwise draw_string advances by n*(cw+sp) and the decorations overshoot the measured box by the spacing: see notes/findings/FINDINGS-C02.md)']
 TRUSTED = list(t.TRUSTED)
 PARTIAL = []
 
